@@ -1137,6 +1137,8 @@ class Process(StateMachine, persistence.Savable, metaclass=ProcessStateMachineMe
         if self.has_terminated():
             return False
 
+        self._forget_withdrawn_requests()
+
         if self._killing is not None:
             # Being killed: the kill takes precedence, a pause must not replace the pending kill action
             return False
@@ -1185,6 +1187,14 @@ class Process(StateMachine, persistence.Savable, metaclass=ProcessStateMachineMe
             self._pausing = None
 
         return True
+
+    def _forget_withdrawn_requests(self) -> None:
+        """A pending kill or pause whose action was cancelled -- by whoever requested it, or by ``step`` when the task
+        stepping the process was cancelled -- is no longer pending: the next request must not be answered with it"""
+        if self._killing is not None and self._killing.cancelled():
+            self._killing = None
+        if self._pausing is not None and self._pausing.cancelled():
+            self._pausing = None
 
     def _create_interrupt_action(self, exception: process_states.Interruption) -> futures.CancellableAction:
         """
@@ -1273,6 +1283,8 @@ class Process(StateMachine, persistence.Savable, metaclass=ProcessStateMachineMe
         if self.has_terminated():
             # Can't kill
             return False
+
+        self._forget_withdrawn_requests()
 
         if self._killing:
             # Already killing
